@@ -16,7 +16,7 @@ classmodel("NoGroupCoordinator", {"_subscription": Ref("SubscriptionState")}, re
 TASK = Fut(NONE)
 
 
-@contract(MOD + ":NoGroupCoordinator._reset_committed_routine", ["C13"])
+@contract(MOD + ":NoGroupCoordinator._reset_committed_routine", ["C13", "C19"])
 def _(c):
     c.self_("NoGroupCoordinator")
     c.owns("self._subscription")
@@ -29,14 +29,31 @@ def _(c):
            note="a future resolved by the next assignment")
     c.call("commit_refresh_needed.clear", modifies=["Event.g_set"], note="asyncio.Event.clear()")
     c.call("commit_refresh_needed.wait", returns=Ref("WaitCoroutine"), post=["fresh(result)"], note="coroutine of asyncio.Event.wait()")
-    c.call("create_task", returns=TASK, post=["fresh(result)", "not result.done()"], note="asyncio task creation")
+    # C19 "no task ... created by that client is still alive": the waiter task the routine creates per round is the only task
+    # it owns; $w is the last one created
+    c.ghost("$w", Opt(TASK), "None")
+    c.ghost("$ev", Opt(Ref("Event")), "None")
+    c.call("create_task", returns=TASK, post=["fresh(result)", "not result.done()"], ghost={"$w": "result"}, note="asyncio task creation")
     c.call("asyncio.wait", returns=Tup(Set(TASK), Set(TASK)), havoc_all=True, raises=["CancelledError"],
            note="asyncio.wait([unassign_future, event_waiter], FIRST_COMPLETED): suspends")
     c.modifies("TPState._committed_futs", "Event.g_set", "Future.state", "Future.nres", "Future.res", "Future.exc")
     c.raises("an-unexpected-error", "BaseException")
     # NoGroupCoordinator.close() cancels this task and awaits it unguarded: the cancellation must end it quietly
     c.never_raises("CancelledError")
-    c.loop(0, header="while True", invariants=[])
+    c.loop(0, header="while True", invariants=[
+        ("no-waiter-task-of-an-earlier-round-is-left-running", "$w is None or $w.done()")])
+    c.hook("before", "create_task", [
+        ("assert", "a-new-waiter-task-only-when-the-last-one-has-ended", "$w is None or $w.done()")])
+    # C13: the round ends when the assignment it serves ends (seek/assign/unsubscribe replace it: the next round serves the
+    # new one) or when one of that assignment's partitions asks for its committed offset - not on anything else
+    c.hook("before", "asyncio.wait", [
+        ("assert", "waits-for-the-end-of-the-assignment-it-serves-and-for-its-requests",
+         "len(a0) == 2 and a0[0] == assignment.unassign_future and a0[1] == event_waiter and event_waiter == $w"
+         " and assignment == self._subscription._subscription.assignment"
+         " and commit_refresh_needed == assignment.commit_refresh_needed"),
+    ])
+    c.ensures_internal("no-waiter-task-is-left-running-when-the-routine-ends", "$w is None or $w.done()")
+    c.replay_fn = lambda model, ob=None: {"script": _NOGROUP_SCRIPT}
     c.loop(1, header="for tp in assignment.requesting_committed()", invariants=[])
     c.hook("before", "tp_state.update_committed", [
         ("assert", "a-group-less-consumer-has-nothing-committed",
@@ -44,6 +61,53 @@ def _(c):
         ("assert", "answers-the-waiters-of-that-partition-of-the-current-assignment",
          "tp in assignment._tp_state and tp_state == assignment._tp_state[tp] and assignment == self._subscription._subscription.assignment"),
     ])
+
+
+# replay: a real NoGroupCoordinator over a real SubscriptionState: several rounds of requests, the assignment replaced within
+# the same subscription, then close(); every request must be answered UNKNOWN_OFFSET and no task may be left behind
+_NOGROUP_SCRIPT = '''
+import asyncio, logging
+logging.disable(logging.CRITICAL)
+from unittest import mock
+from aiokafka.consumer.group_coordinator import NoGroupCoordinator
+from aiokafka.consumer.subscription_state import SubscriptionState
+from aiokafka.structs import TopicPartition
+async def main():
+    bad = []
+    subs = SubscriptionState()
+    client = mock.MagicMock()
+    client.cluster.partitions_for_topic = lambda t: {0, 1}
+    before = set(asyncio.all_tasks())
+    coord = NoGroupCoordinator(client, subs)
+    t0, t1 = TopicPartition("t", 0), TopicPartition("t", 1)
+    async def ask(tp, what):
+        fut = subs.subscription.assignment.state_value(tp).fetch_committed()
+        try:
+            r = await asyncio.wait_for(fut, 1.0)
+        except asyncio.TimeoutError:
+            bad.append("%s: the committed offset of %s was never served" % (what, tp)); return
+        if r.offset != -1:
+            bad.append("%s: %s was told the committed offset %r" % (what, tp, r.offset))
+    subs.subscribe({"t"})
+    subs.assign_from_subscribed({t0})
+    for i in range(3):
+        await ask(t0, "round %d" % i)
+    subs.assign_from_subscribed({t0, t1})          # the assignment is replaced, the subscription stays
+    await asyncio.sleep(0)
+    await ask(t1, "after the assignment was replaced")
+    await ask(t0, "after the assignment was replaced")
+    await coord.close()
+    await asyncio.sleep(0); await asyncio.sleep(0)
+    left = [t for t in asyncio.all_tasks() if t not in before and t is not asyncio.current_task() and not t.done()]
+    if left:
+        bad.append("%d tasks still alive after close(): %r" % (len(left), [str(t.get_coro()) for t in left][:3]))
+    for t in left:
+        t.cancel()
+    return bad
+bad = asyncio.run(main())
+VIOLATED = bool(bad)
+DETAIL = "group-less committed-offset routine: %r" % (bad[:3],) if bad else "ok"
+'''
 
 
 # ------------------------------------------------------------------ GroupCoordinator._commit_refresh_routine
